@@ -215,6 +215,9 @@ impl DcpsDomainParticipant {
             return Err(DdsError::AlreadyDeleted);
         };
 
+        if publisher.enabled {
+            publisher.qos.check_immutability(&qos)?;
+        }
         publisher.qos = qos;
         Ok(())
     }
